@@ -113,6 +113,8 @@ impl<'d, 's> BufferRef<'d, 's> {
 
     fn cap_at(self, index: usize) -> BufferRef<'d, 's> {
         assert!(*self.initialized_ == 0);
+        // A cap beyond the capacity that is left does not restrict anything.
+        let index = std::cmp::min(index, self.buffer.len());
         BufferRef {
             buffer: &mut self.buffer[..index],
             initialized_: self.initialized_,
